@@ -1,14 +1,17 @@
 package props
 
 import (
+	"bytes"
 	"fmt"
 	"testing"
+	"time"
 
 	"github.com/bolkedebruin/rdpgw/cmd/rdpgw/protocol"
 	"pgregory.net/rapid"
 
 	"verif/harness/lab/gwc"
 	"verif/harness/lab/model"
+	"verif/harness/lab/sess"
 	"verif/harness/lab/tsgu"
 )
 
@@ -21,7 +24,7 @@ type c16Case struct {
 	Hist    []PktSpec `json:"history"`
 }
 
-var c16Outcomes = []string{"accepted", "accepted-close", "wrong-phase-0", "wrong-phase-1", "wrong-phase-2", "wrong-phase-3", "rejected-cookie", "denied-host", "unreachable-host", "caps-mismatch"}
+var c16Outcomes = []string{"accepted", "accepted-close", "accepted-host-data", "wrong-phase-0", "wrong-phase-1", "wrong-phase-2", "wrong-phase-3", "rejected-cookie", "denied-host", "unreachable-host", "caps-mismatch"}
 
 func genRedirect(t *rapid.T) protocol.RedirectFlags {
 	m := rapid.IntRange(0, 127).Draw(t, "redirMask")
@@ -46,7 +49,7 @@ func scriptHistory(o gwOpts, outcome string) []PktSpec {
 	data := PktSpec{K: "data", Payload: []byte("hello host")}
 	var h []PktSpec
 	switch outcome {
-	case "accepted":
+	case "accepted", "accepted-host-data":
 		h = []PktSpec{hs, tc, ta, cc, data}
 	case "accepted-close":
 		h = []PktSpec{hs, tc, ta, cc, data, {K: "close"}}
@@ -140,7 +143,47 @@ func checkC16(o gwOpts, obs model.Obs) *Violation {
 	return nil
 }
 
+// runC16HostData: an accepted session in which the host also sends, so that data packets towards the client are
+// among the packets whose framing is checked.
+func runC16HostData(c c16Case, o gwOpts, tgt gwc.Target) *Violation {
+	w := W()
+	snap := w.snap()
+	defer w.observe(snap, 0)
+	conn, err := gwc.Dial(c.Kind, tgt, sess.NewConnID())
+	if err != nil {
+		return viol("c16/open", "%v", err)
+	}
+	defer conn.Close()
+	units, _ := render(histCfg{Opts: o, Kind: c.Kind}, c.Hist[:5], "127.0.0.1")
+	for _, u := range units {
+		conn.Send(u)
+	}
+	host := w.L["A"].WaitAccept(snap["A"]+1, 10*time.Second)
+	if host == nil {
+		return viol("c16/setup", "no backend connection in an accepted session")
+	}
+	var sent []byte
+	for _, n := range []int{1, 61, 64, 200, 4086, 5000} {
+		b := streamBytes(3, len(sent), n)
+		host.Write(b)
+		sent = append(sent, b...)
+	}
+	got, perr, _ := pollDataPayload(conn, len(sent), 10*time.Second)
+	if perr != nil {
+		return viol("c16/data-packet-malformed", "a data packet sent to the client is not well-formed: %v", perr)
+	}
+	if !bytes.Equal(got, sent) {
+		return viol("c16/data-packet-content", "client got %d payload bytes of %d", len(got), len(sent))
+	}
+	return nil
+}
+
 func runC16On(c c16Case, o gwOpts, tgt gwc.Target) *Violation {
+	if c.Outcome == "accepted-host-data" {
+		if v := runC16HostData(c, o, tgt); v != nil {
+			return v
+		}
+	}
 	units, evs := render(histCfg{Opts: o, Kind: c.Kind}, c.Hist, "127.0.0.1")
 	obs, _, v := runHistory(c.Kind, tgt, units)
 	if v != nil {
